@@ -6,6 +6,7 @@ import (
 	"strings"
 
 	"golang.org/x/tools/go/ssa"
+	"golang.org/x/tools/go/ssa/ssautil"
 
 	"chverif/core"
 )
@@ -47,6 +48,7 @@ func bufferRoots(fn *ssa.Function) []ssa.Value {
 }
 
 type bufAnalysis struct {
+	depth   int
 	fn      *ssa.Function
 	roots   map[ssa.Value]bool // values equal to the *Buffer
 	whole   map[ssa.Value]bool // loads of b.Buf
@@ -57,6 +59,66 @@ type bufAnalysis struct {
 type bufViolation struct {
 	at   ssa.Instruction
 	what string
+}
+
+// newBufAnalysis builds the root / address / whole-load sets of fn without judging anything.
+func newBufAnalysis(fn *ssa.Function) *bufAnalysis {
+	roots := bufferRoots(fn)
+	if len(roots) == 0 {
+		return nil
+	}
+	a := &bufAnalysis{fn: fn, roots: map[ssa.Value]bool{}, whole: map[ssa.Value]bool{}, bufAddr: map[ssa.Value]bool{},
+		geMemo: map[ssa.Value]int{}}
+	for _, r := range roots {
+		if pt, ok := r.Type().(*types.Pointer); ok && isBufferPtr(pt.Elem()) {
+			for _, ref := range *r.Referrers() {
+				if u, ok := ref.(*ssa.UnOp); ok && u.Op == token.MUL {
+					a.roots[u] = true
+				}
+			}
+			continue
+		}
+		a.roots[r] = true
+	}
+	for _, b := range fn.Blocks {
+		for _, in := range b.Instrs {
+			if fa, ok := in.(*ssa.FieldAddr); ok && a.roots[fa.X] {
+				a.bufAddr[fa] = true
+			}
+		}
+	}
+	for _, b := range fn.Blocks {
+		for _, in := range b.Instrs {
+			if u, ok := in.(*ssa.UnOp); ok && u.Op == token.MUL && a.bufAddr[u.X] {
+				a.whole[u] = true
+			}
+		}
+	}
+	return a
+}
+
+var bufCallersOnce = map[*ssa.Program]map[*ssa.Function][]ssa.CallInstruction{}
+
+// staticCallersOf: static call sites of fn in the whole program (cached per program).
+func staticCallersOf(fn *ssa.Function) []ssa.CallInstruction {
+	prog := fn.Prog
+	m := bufCallersOnce[prog]
+	if m == nil {
+		m = map[*ssa.Function][]ssa.CallInstruction{}
+		for g := range ssautil.AllFunctions(prog) {
+			for _, b := range g.Blocks {
+				for _, in := range b.Instrs {
+					if call, ok := in.(ssa.CallInstruction); ok {
+						if sf := core.StaticFn(call); sf != nil {
+							m[sf] = append(m[sf], call)
+						}
+					}
+				}
+			}
+		}
+		bufCallersOnce[prog] = m
+	}
+	return m[fn]
 }
 
 func analyseBuffer(fn *ssa.Function) (viol []bufViolation, touched bool) {
@@ -386,6 +448,40 @@ func (a *bufAnalysis) ge(v ssa.Value) bool {
 
 func (a *bufAnalysis) ge1(v ssa.Value) bool {
 	switch x := v.(type) {
+	case *ssa.Parameter:
+		// an offset handed to an unexported helper together with the buffer: it is what every caller passes
+		if a.fn.Object() == nil || a.fn.Object().Exported() || a.depth > 1 {
+			return false
+		}
+		pi := -1
+		for i, q := range a.fn.Params {
+			if q == x {
+				pi = i
+			}
+		}
+		sites := staticCallersOf(a.fn)
+		if pi < 0 || len(sites) == 0 {
+			return false
+		}
+		for _, cs := range sites {
+			caller := cs.Parent()
+			ca := newBufAnalysis(caller)
+			if ca == nil || pi >= len(cs.Common().Args) {
+				return false
+			}
+			ca.depth = a.depth + 1
+			// the buffer the helper works on is the caller's buffer
+			sameBuf := false
+			for i, q := range a.fn.Params {
+				if a.roots[q] && i < len(cs.Common().Args) && ca.roots[cs.Common().Args[i]] {
+					sameBuf = true
+				}
+			}
+			if !sameBuf || !ca.ge(cs.Common().Args[pi]) {
+				return false
+			}
+		}
+		return true
 	case *ssa.Call:
 		if bi, ok := x.Call.Value.(*ssa.Builtin); ok && bi.Name() == "len" && a.whole[x.Call.Args[0]] {
 			return true
